@@ -37,6 +37,62 @@ def load_known():
     return json.load(open(KNOWN_PATH))['fns']
 
 
+def load_known_adts():
+    if not os.path.exists(KNOWN_PATH):
+        return {}
+    return json.load(open(KNOWN_PATH)).get('adts', {})
+
+
+def rename_fields_back(j, known_adts):
+    """A private field that only changed its NAME (same struct / variant, same position, same type, same number of
+    fields) is given its known name back in every place projection, aggregate and in the ADT table: the rules name
+    the fields of the tree they were confirmed on (`RollingWriter.offset`, `FrameReader.cursor`, ...)."""
+    if j.get('crate') != 'mrecordlog' or not known_adts:
+        return {}
+    ren = {}   # (adt, variant name, index) -> (new name, old name)
+    for a in j.get('adts', []):
+        path = strip_crate(a['path'])
+        k = known_adts.get(path)
+        if not k or len(k) != len(a['variants']):
+            continue
+        for kv, v in zip(k, a['variants']):
+            if kv['name'] != v['name'] or len(kv['fields']) != len(v['fields']):
+                continue
+            if [t for (_n, t) in kv['fields']] != [f['ty'] for f in v['fields']]:
+                continue
+            cur_names = [f['name'] for f in v['fields']]
+            old_names = [n for (n, _t) in kv['fields']]
+            if sorted(cur_names) == sorted(old_names):
+                continue        # same names (possibly reordered): nothing to do
+            for i, (f, (on, _t)) in enumerate(zip(v['fields'], kv['fields'])):
+                if f['name'] != on and on not in cur_names:
+                    ren[(path, v['name'], i)] = (f['name'], on)
+                    f['name'] = on
+    if not ren:
+        return {}
+    by_adt = {}
+    for (path, vn, i), (nn, on) in ren.items():
+        by_adt.setdefault(path, []).append((vn, i, nn, on))
+    def visit(o):
+        if isinstance(o, dict):
+            if o.get('k') == 'field' and o.get('adt') and strip_crate(o['adt']) in by_adt:
+                for (vn, i, nn, on) in by_adt[strip_crate(o['adt'])]:
+                    if o.get('i') == i and o.get('name') == nn and (o.get('variant') in (None, vn)):
+                        o['name'] = on
+            if o.get('k') == 'agg' and o.get('agg') == 'adt' and o.get('adt') and strip_crate(o['adt']) in by_adt and isinstance(o.get('fields'), list):
+                for (vn, i, nn, on) in by_adt[strip_crate(o['adt'])]:
+                    if o.get('variant') in (None, vn) or o.get('variant') == vn:
+                        o['fields'] = [on if x == nn else x for x in o['fields']]
+            for v in o.values():
+                visit(v)
+        elif isinstance(o, list):
+            for x in o:
+                visit(x)
+    for b in j.get('instances', []) + j.get('poly', []):
+        visit(b['blocks'])
+    return {'%s.%s' % (p, on): nn for (p, vn, i), (nn, on) in ren.items()}
+
+
 def effective_known(j, known):
     """Known paths plus the functions that took the place of a known function that no longer exists
     (same parent module / impl, same signature): a rename keeps the function a unit of analysis."""
@@ -524,12 +580,108 @@ def rename_back(j, renamed):
                 f[k] = fix(f[k])
 
 
+def rename_types_back(j, known_adts):
+    """A struct / enum that only changed its NAME (same module, same variants, same fields, same field types) is
+    given its known name back in every string of the facts; an enum variant that only changed its name (same index,
+    same fields) likewise.  Done before functions are matched, so that methods of a renamed type keep their paths."""
+    import re as _re
+    if j.get('crate') != 'mrecordlog' or not known_adts:
+        return {}
+    cur = {strip_crate(a['path']): a for a in j.get('adts', [])}
+    def vname(n, path):
+        return '<self>' if n == path.split('::')[-1] else n
+    def sig_of_cur(a, self_path, as_path):
+        return tuple((vname(v['name'], self_path), tuple((f['name'], strip_crate(f['ty']).replace(self_path, as_path)) for f in v['fields'])) for v in a['variants'])
+    def sig_of_known(k, path):
+        return tuple((vname(v['name'], path), tuple((n, strip_crate(t)) for (n, t) in v['fields'])) for v in k)
+    missing = [m for m in known_adts if m not in cur]
+    extra = [x for x in cur if x not in known_adts and not cur[x].get('is_test_item')]
+    ren = {}
+    for m in missing:
+        parent = m.rsplit('::', 1)[0] if '::' in m else ''
+        cands = [x for x in extra if (x.rsplit('::', 1)[0] if '::' in x else '') == parent and x not in ren.values() and sig_of_cur(cur[x], x, m) == sig_of_known(known_adts[m], m)]
+        if len(cands) == 1:
+            ren[m] = cands[0]
+    if ren:
+        pats = [(_re.compile(r'(?<![A-Za-z0-9_])' + _re.escape(new) + r'(?![A-Za-z0-9_])'), old) for old, new in ren.items()]
+        # also the `mrecordlog::`-prefixed spelling
+        def fix(v):
+            for (pat, old) in pats:
+                v = pat.sub(old, v)
+            return v
+        def visit(o):
+            if isinstance(o, dict):
+                for k, v in list(o.items()):
+                    if isinstance(v, str):
+                        if '::' in v:
+                            o[k] = fix(v)
+                    else:
+                        visit(v)
+            elif isinstance(o, list):
+                for i, x in enumerate(o):
+                    if isinstance(x, str):
+                        if '::' in x:
+                            o[i] = fix(x)
+                    else:
+                        visit(x)
+        for key in ('adts', 'consts', 'fns', 'impls', 'roots', 'instances', 'poly'):
+            visit(j.get(key, []))
+        # bare struct names (variant name of a struct = its own name)
+        bare = {new.split('::')[-1]: old.split('::')[-1] for old, new in ren.items()}
+        def visit_bare(o):
+            if isinstance(o, dict):
+                if isinstance(o.get('variant'), str) and o['variant'] in bare and strip_crate(o.get('adt') or '') in ren:
+                    o['variant'] = bare[o['variant']]
+                for v in o.values():
+                    visit_bare(v)
+            elif isinstance(o, list):
+                for x in o:
+                    visit_bare(x)
+        for a in j.get('adts', []):
+            if strip_crate(a['path']) in ren:
+                for v in a['variants']:
+                    if v['name'] in bare:
+                        v['name'] = bare[v['name']]
+        for b in j.get('instances', []) + j.get('poly', []):
+            visit_bare(b['blocks'])
+    # enum variants renamed in place
+    vren = {}
+    for a in j.get('adts', []):
+        path = strip_crate(a['path'])
+        k = known_adts.get(path)
+        if not k or len(k) != len(a['variants']) or a.get('kind') != 'enum':
+            continue
+        cur_names = [v['name'] for v in a['variants']]
+        for kv, v in zip(k, a['variants']):
+            if kv['name'] != v['name'] and kv['name'] not in cur_names and [(n, t) for (n, t) in kv['fields']] == [(f['name'], strip_crate(f['ty'])) for f in v['fields']]:
+                vren[(path, v['name'])] = kv['name']
+                v['name'] = kv['name']
+    if vren:
+        def visit2(o):
+            if isinstance(o, dict):
+                adt = strip_crate(o.get('adt') or '')
+                if 'variant' in o and isinstance(o['variant'], str) and (adt, o['variant']) in vren:
+                    o['variant'] = vren[(adt, o['variant'])]
+                for v in o.values():
+                    visit2(v)
+            elif isinstance(o, list):
+                for x in o:
+                    visit2(x)
+        for b in j.get('instances', []) + j.get('poly', []):
+            visit2(b['blocks'])
+    out = dict(ren)
+    out.update({'%s::%s' % (p, old): new for (p, new), old in vren.items()})
+    return out
+
+
 def inline_unknown(j, known):
     """Mutates facts json j. Returns dict(inlined=[paths], dropped=[paths])."""
     if known is None or j.get('crate') != 'mrecordlog':
         return {'inlined': [], 'dropped': []}
+    types_renamed = rename_types_back(j, load_known_adts())
     known, renamed = effective_known(j, known)
     rename_back(j, renamed)
+    fields_renamed = rename_fields_back(j, load_known_adts())
     report = {'inlined': set(), 'dropped': set()}
     # instances: callee.node = id
     inst = j['instances']
@@ -566,4 +718,4 @@ def inline_unknown(j, known):
         for b in drop:
             report['dropped'].add(strip_crate(b['path']))
             poly.remove(b)
-    return {'inlined': sorted(report['inlined']), 'dropped': sorted(report['dropped']), 'renamed': renamed}
+    return {'inlined': sorted(report['inlined']), 'dropped': sorted(report['dropped']), 'renamed': renamed, 'fields_renamed': fields_renamed, 'types_renamed': types_renamed}
